@@ -5,7 +5,10 @@ stdin : {"cases": [ {"kind": "surface"|"volume"|"polyline", "V": [[x,y,z],..], "
 stdout: '@@JSON ' + {"cases": [ {"edges": [[a,b],..], "outs": {opname: {"shape":[r,c], "ent":[[i,j,v],..]} | {"error": s}},
                                  "bases": {"conn": [[X,Y],..], "flat": [[X,Y],..]}} ]}
 Entries are the summed coefficients of the returned scipy.sparse matrix, sorted by (row, col), exact zeros dropped;
-complex matrices give [i, j, re, im].  Every operator call gets a FRESH mesh object (the operators cache attributes).
+complex matrices give [i, j, re, im].  Without "seq" every operator call gets a FRESH mesh object.
+With "seq": [opname,..] (and optional "pre": [attribute names]) the calls are made in that order on ONE mesh object after the
+named mouette.attributes were computed persistently; the answer is "steps": [result + {"op", "mutated": [container/attribute
+whose stored data the call changed]}].
 """
 import json
 import sys
@@ -22,6 +25,8 @@ def build(case):
     d.vertices += [M.Vec(float(x), float(y), float(z)) for x, y, z in case["V"]]
     kind = case["kind"]
     if kind == "surface":
+        if case.get("E"):   # explicit edge list (as a file with an edge section gives), possibly with edges of no face
+            d.edges += [tuple(int(x) for x in e) for e in case["E"]]
         d.faces += [tuple(int(x) for x in f) for f in case["F"]]
         d.prepare()
         return M.mesh.SurfaceMesh(d)
@@ -70,11 +75,12 @@ def flag(s):
     return s == "1"
 
 
-def run_op(case, name):
+def run_op(case, name, mesh=None):
     import mouette as M
     from mouette import operators as O
     from mouette.processing.connection import SurfaceConnectionFaces, FlatConnectionFaces
-    mesh = build(case)
+    if mesh is None:
+        mesh = build(case)
     base, _, arg = name.partition(":")
     if base == "lap":
         return entries(O.laplacian(mesh, cotan=flag(arg)))
@@ -119,6 +125,84 @@ def run_op(case, name):
     raise ValueError("unknown operator " + name)
 
 
+CONTAINERS = ("vertices", "edges", "faces", "face_corners", "cells", "cell_corners", "cell_faces")
+
+
+def snapshot(mesh):
+    """everything stored on the mesh object: element data and every attribute of every container, as comparable blobs"""
+    snap = {}
+    for cname in CONTAINERS:
+        c = getattr(mesh, cname, None)
+        if c is None:
+            continue
+        try:
+            items = [c[i] for i in range(len(c))]
+            if cname == "vertices":
+                snap[cname + "/#data"] = np.asarray(items, dtype=float).tobytes()
+            else:
+                snap[cname + "/#data"] = repr([tuple(int(t) for t in np.atleast_1d(x)) for x in items])
+        except Exception as ex:  # noqa
+            snap[cname + "/#data"] = "unreadable: %r" % ex
+        for name in list(c.attributes):
+            a = c.get_attribute(name)
+            d = getattr(a, "_data", None)
+            if isinstance(d, np.ndarray):
+                snap["%s/%s" % (cname, name)] = (d.dtype.str, d.shape, d.tobytes())
+            elif isinstance(d, dict):
+                snap["%s/%s" % (cname, name)] = repr(sorted((repr(k), np.asarray(v).tolist()) for k, v in d.items()))
+            else:
+                snap["%s/%s" % (cname, name)] = repr(d)
+    return snap
+
+
+def run_pre(mesh, name):
+    """persistent attributes computed by the user before the operators are called"""
+    import mouette as M
+    A = M.attributes
+    if name == "face_area":
+        A.face_area(mesh, persistent=True)
+    elif name == "cotangent":
+        A.cotangent(mesh, persistent=True)
+    elif name == "corner_angles":
+        A.corner_angles(mesh, persistent=True)
+    elif name == "face_normals":
+        A.face_normals(mesh, persistent=True)
+    elif name == "vertex_normals":
+        A.vertex_normals(mesh, persistent=True)
+    elif name == "edge_length":
+        A.edge_length(mesh, persistent=True)
+    elif name == "cell_volume":
+        A.cell_volume(mesh, persistent=True)
+    else:
+        raise ValueError("unknown pre-step " + name)
+
+
+def run_sequence(case, res):
+    """call sequence on ONE mesh object; after every call report what it returned and which stored arrays it changed"""
+    mesh = build(case)
+    res["pre"] = []
+    for name in case.get("pre", []):
+        try:
+            with np.errstate(all="ignore"):
+                run_pre(mesh, name)
+            res["pre"].append([name, "ok"])
+        except Exception as ex:  # noqa
+            res["pre"].append([name, "%s: %s" % (type(ex).__name__, ex)])
+    steps = []
+    for name in case["seq"]:
+        before = snapshot(mesh)
+        try:
+            with np.errstate(all="ignore"):
+                r = run_op(case, name, mesh)
+        except Exception as ex:  # noqa
+            r = {"error": "%s: %s" % (type(ex).__name__, ex)}
+        after = snapshot(mesh)
+        r["op"] = name
+        r["mutated"] = sorted(k for k in before if after.get(k) != before[k])
+        steps.append(r)
+    res["steps"] = steps
+
+
 def run_case(case):
     res = {"outs": {}}
     try:
@@ -130,6 +214,12 @@ def run_case(case):
             res["cells"] = [[int(x) for x in c] for c in mesh.cells]
     except Exception as ex:  # noqa
         res["error"] = "%s: %s" % (type(ex).__name__, ex)
+        return res
+    if "seq" in case:
+        try:
+            run_sequence(case, res)
+        except Exception as ex:  # noqa
+            res["error"] = "%s: %s" % (type(ex).__name__, ex)
         return res
     for name in case["ops"]:
         try:
